@@ -92,6 +92,28 @@ impl Daemon {
         Daemon { path: path.to_path_buf(), dbox, log, notify: rx, handle: Some(handle), _main_mbox: main_mbox, sent: 0 }
     }
 
+    /// The same with the real ShmWriter itself as the sink (no tee in between: whatever the writer
+    /// thread does with its writer, beyond write(), happens for real); observe through the file.
+    pub fn start_plain(path: &Path, max_drift_ppb: u32) -> Daemon {
+        let (mut mailbox, dbox) = new_channel_web::<ChannelId, Message>(vec![ChannelId::ClockErrorBoundPoller, ChannelId::MainThread, ChannelId::ShmWriter]);
+        let mbox = mailbox.get_mailbox(&ChannelId::ShmWriter).unwrap();
+        let main_mbox = mailbox.get_mailbox(&ChannelId::MainThread).unwrap();
+        let ctx = Context { channel_id: ChannelId::ShmWriter, mbox, dbox: dbox.clone() };
+        let log = Arc::new(Mutex::new(Vec::new()));
+        let (_tx, rx) = channel();
+        let (ready_tx, ready_rx) = channel();
+        let p2 = path.to_path_buf();
+        let handle = std::thread::spawn(move || {
+            vworld::clock::set_thread_virtual(true);
+            let writer = ShmWriter::new(&p2).expect("ShmWriter::new");
+            vworld::close_fds_pointing_to(&p2, &[]);
+            let _ = ready_tx.send(());
+            process_messages_with(ctx, writer, max_drift_ppb);
+        });
+        ready_rx.recv_timeout(Duration::from_secs(30)).expect("shm writer thread start");
+        Daemon { path: path.to_path_buf(), dbox, log, notify: rx, handle: Some(handle), _main_mbox: main_mbox, sent: 0 }
+    }
+
     pub fn send(&mut self, m: Message) {
         self.sent += 1;
         self.dbox.send(&ChannelId::ShmWriter, m).expect("send to shm writer");
